@@ -95,30 +95,100 @@ def _external(cmd, smt2, timeout_s):
             pass
 
 
+class _EnvModel:
+    """model returned by a forked solver process: values of the free variables as Fractions"""
+
+    def __init__(self, env):
+        self.env = env
+
+
+def _forked(fn, fs, timeout_s, *args):
+    """Run fn(fs, ...) in a forked child with a hard wall-clock limit (z3's own timeout is not always honoured
+    inside the non-linear core). Returns (status, env or None)."""
+    import json
+    import select
+    import signal
+    r, w = os.pipe()
+    pid = os.fork()
+    if pid == 0:
+        try:
+            os.close(r)
+            try:
+                st, m = fn(fs, *args)
+                env = None
+                if st == 'sat' and m is not None:
+                    e = model_env(m, free_vars(fs))
+                    env = {k: ([str(v.numerator), str(v.denominator)] if isinstance(v, Fraction) else v) for k, v in e.items()}
+                os.write(w, json.dumps([st, env]).encode())
+            except BaseException as ex:  # noqa
+                os.write(w, json.dumps(['unknown', None]).encode())
+        finally:
+            os._exit(0)
+    os.close(w)
+    buf = b''
+    deadline = time.time() + timeout_s + 2
+    try:
+        while True:
+            left = deadline - time.time()
+            if left <= 0:
+                break
+            rl, _, _ = select.select([r], [], [], left)
+            if not rl:
+                break
+            chunk = os.read(r, 1 << 16)
+            if not chunk:
+                break
+            buf += chunk
+    finally:
+        os.close(r)
+        try:
+            os.kill(pid, signal.SIGKILL)
+        except OSError:
+            pass
+        try:
+            os.waitpid(pid, 0)
+        except OSError:
+            pass
+    if not buf:
+        return 'unknown', None
+    try:
+        st, env = json.loads(buf.decode())
+    except ValueError:
+        return 'unknown', None
+    if env is not None:
+        env = {k: (Fraction(int(v[0]), int(v[1])) if isinstance(v, list) else v) for k, v in env.items()}
+        return st, _EnvModel(env)
+    return st, None
+
+
 def check_sat(fs, timeout_s=30, portfolio=True, seed=0):
-    """Satisfiability of the conjunction fs with a solver portfolio. Only 'unsat' and 'sat' are conclusive."""
+    """Satisfiability of the conjunction fs with a solver portfolio. Only 'unsat' and 'sat' are conclusive.
+    portfolio=False: in-process z3 only (for ground / linear queries)."""
     t0 = time.time()
     tried = []
     fs = [f for f in fs]
-    r, m = _z3_default(fs, timeout_s * 1000, seed)
+    if not portfolio:
+        r, m = _z3_default(fs, timeout_s * 1000, seed)
+        tried.append(('z3-%s' % z3.get_version_string(), r, round(time.time() - t0, 3)))
+        return Verdict(r, tried[-1][0], time.time() - t0, m, tried)
+    budget = timeout_s
+    timeout_s = max(2, budget / 2)
+    r, m = _forked(_z3_default, fs, timeout_s, timeout_s * 1000, seed)
     tried.append(('z3-%s' % z3.get_version_string(), r, round(time.time() - t0, 3)))
     if r != 'unknown':
         return Verdict(r, tried[-1][0], time.time() - t0, m, tried)
-    if not portfolio:
-        return Verdict('unknown', 'z3', time.time() - t0, None, tried)
     uf = _has_uf(fs)
     if not uf:
-        for sd in (0, 1, 2, 3):
+        for sd in (0, 1, 2):
             t1 = time.time()
-            try:
-                r, m = _z3_nlsat(fs, max(2000, timeout_s * 250), sd)
-            except z3.Z3Exception:
-                r, m = 'unknown', None
+            tl = max(2, budget / 12)
+            r, m = _forked(_z3_nlsat, fs, tl, tl * 1000, sd)
             tried.append(('z3-nlsat-seed%d' % sd, r, round(time.time() - t1, 3)))
             if r != 'unknown':
                 return Verdict(r, tried[-1][0], time.time() - t0, m, tried)
     smt2 = to_smt2(fs)
     t1 = time.time()
+    timeout_s = max(2, budget / 8)
     r = _external(['/usr/bin/z3', '-T:%d' % max(2, int(timeout_s))], smt2, timeout_s)
     tried.append(('z3-4.8.12', r, round(time.time() - t1, 3)))
     if r != 'unknown':
@@ -142,6 +212,11 @@ _TRUE = {
     'atan': mpmath.atan, 'sinh': mpmath.sinh, 'cosh': mpmath.cosh, 'log': mpmath.log, 'exp': mpmath.exp,
     'sqrt': mpmath.sqrt,
 }
+
+
+def register_fn(name, fn):
+    """numeric meaning of an extra uninterpreted function (used only by the witness search)"""
+    _TRUE[name] = fn
 
 
 class NumEvalError(Exception):
@@ -204,7 +279,7 @@ def _neval(e, env, cache):
             return env[name](*args)
         if name in _TRUE:
             try:
-                v = _TRUE[name](args[0])
+                v = _TRUE[name](*args)
             except Exception as ex:  # noqa
                 raise NumEvalError('%s(%s): %s' % (name, args[0], ex))
             if isinstance(v, mpmath.mpc):
@@ -289,6 +364,8 @@ def free_vars(es):
 
 
 def model_env(model, vars_):
+    if isinstance(model, _EnvModel):
+        return dict(model.env)
     env = {}
     for name, v in vars_.items():
         mv = model.eval(v, model_completion=True)
